@@ -76,11 +76,13 @@ def gen_dup_random(rng, gen_custom):
 
 # ---------------------------------------------------------------------------------- L / I: argument forms
 def with_form(rng, case):
-    form = {"demands": rng.choice(DEMAND_FORMS), "fresh": rng.random() < 0.5}
+    form = {"demands": rng.choice(DEMAND_FORMS + ["float"]), "fresh": rng.random() < 0.5}
     if case["kind"] == "cs":
         form["sizes"] = rng.choice(["list", "tuple", "float"])
     else:
         form["init"] = rng.choice(["tuples", "lists", "tuple_of_lists"])
+        if rng.random() < 0.3:
+            form["entries"] = "float"
     case["form"] = form
     case["family"] = "forms"
     return case
@@ -252,6 +254,69 @@ def gen_rows_custom(rng, m):
             "init_opt_known": sum(-(-d // T) for d in demands), "family": "size", "no_coq": True}
 
 
+# ---------------------------------------------------------------------------------- W: work volume (round 3)
+def gen_wide_roll(rng, width):
+    """Roll widths beyond 2^12 / 10^4 / 2^14: the knapsack table has 100 * width cells.  Zero-waste constructions (pairs a + (W - a),
+    a + a + (W - 2a), triples a + b + (W - a - b)) so the optimum is the area bound."""
+    style = rng.choice(["pair", "pair", "double", "triple"])
+    if style == "pair":
+        a = rng.randint(width // 3 + 1, width // 2 - 1)
+        sizes, pat = [a, width - a], (1, 1)
+    elif style == "double":
+        a = rng.randint(width // 4 + 1, width // 3 - 1)
+        sizes, pat = [a, width - 2 * a], (2, 1)
+    else:
+        a = rng.randint(width // 4 + 1, width // 3 - 1)
+        b = rng.randint(width // 4 + 1, width // 3 - 1)
+        sizes, pat = [a, b, width - a - b], (1, 1, 1)
+    c = rng.randint(1, 3)
+    demands = [c * k for k in pat]
+    solver = rng.choice(["cg", "bp"])
+    return {"kind": "cs", "solver": solver, "sizes": sizes, "width": width, "demands": demands, "max_iter": 30, "max_nodes": 20,
+            "opt_known": c, "family": "work_wide_roll", "no_coq": True, "work": True, "timeout": 120}
+
+
+def gen_lazy_cg(rng, K, max_iter, rows=1):
+    """Custom mode with a lazy (first improving) pricing call-back over the columns k * e_i, k = 1..K: column generation adds them one
+    by one, about rows * (K - 1) iterations; optimum sum_i ceil(d_i / K).  With max_iter below that the run is cut short (FEASIBLE)."""
+    cols = [tuple(k if j == i else 0 for j in range(rows)) for k in range(1, K + 1) for i in range(rows)]
+    demands = [rng.randint(K, 3 * K) for _ in range(rows)]
+    init = [tuple(1 if j == i else 0 for j in range(rows)) for i in range(rows)]
+    solver = rng.choice(["cg", "bp"])
+    return {"kind": "custom", "solver": solver, "columns": [list(c) for c in cols], "init": [list(c) for c in init], "demands": demands,
+            "max_iter": max_iter, "max_nodes": 20, "opt_known": sum(-(-d // K) for d in demands), "init_opt_known": sum(demands),
+            "form": {"pricing": "lazy"}, "family": "work_cg_iterations", "no_coq": True, "work": True, "timeout": 120}
+
+
+DEEP_TREES = [   # found by search: branch-and-price trees of thousands of nodes on tiny inputs (pricing ignores the branching rows)
+    {"sizes": [2, 1, 1, 2], "width": 5, "demands": [7, 2, 4, 8], "max_iter": 2},
+    {"sizes": [1, 3, 1, 3], "width": 7, "demands": [10, 13, 8, 15], "max_iter": 1},
+    {"sizes": [2, 1, 1, 1], "width": 5, "demands": [11, 11, 2, 7], "max_iter": 30},
+    {"sizes": [1, 2, 1, 2], "width": 5, "demands": [7, 15, 8, 8], "max_iter": 2},
+]
+
+
+def gen_deep_tree(rng, base, max_nodes):
+    return {"kind": "cs", "solver": "bp", **copy.deepcopy(base), "max_nodes": max_nodes, "family": "work_bb_nodes", "no_coq": True,
+            "work": True, "timeout": 150}
+
+
+def gen_bland_chain(rng, K, solver):
+    """One row, initial columns (1), (2), ..., (K): Bland's rule enters them one after the other - K - 1 pivots in ONE simplex_phase call
+    on a 2-row tableau.  Optimum ceil(d / K)."""
+    cols = [[k] for k in range(1, K + 1)]
+    d = rng.randint(K, 3 * K)
+    return {"kind": "custom", "solver": solver, "columns": cols, "init": cols, "demands": [d], "max_iter": 2, "max_nodes": 5,
+            "opt_known": -(-d // K), "init_opt_known": -(-d // K), "family": "work_pivots", "no_coq": True, "work": True, "timeout": 300}
+
+
+def gen_many_pivots(rng, m):
+    """m rows in custom mode: phase 1 has to drive m artificials out, > m pivots in one simplex_phase call."""
+    c = gen_rows_custom(rng, m)
+    c.update(solver="cg", max_iter=rng.choice([1, 2]), family="work_pivots", work=True, timeout=150)
+    return c
+
+
 # ---------------------------------------------------------------------------------- O: option sweeps
 def sweeps(rng, gen_cs, gen_custom, n_base):
     out = []
@@ -322,6 +387,34 @@ def extra_cases(ctx: Ctx):
     for m in [17, 33] + ([40] if thorough else []):
         cases.append(gen_rows_custom(rng, m))
     cases.append(gen_perfect_cs(rng, n=rng.choice([17, 24]), width=rng.choice([60, 101]), mags=[3, 10, 257], family="size") | {"no_coq": True})
+    # W (round 3): every loop pushed past 2^7 / 2^10 / 2^12 / 10^4 iterations where affordable
+    heavy = []
+    for w in [4097, 8193, rng.randint(10001, 11000), rng.randint(11001, 14000), rng.randint(14001, 17000), rng.choice([16000, 16385, 12345]),
+              rng.randint(17001, 20001)] + ([rng.randint(20001, 33000), 32771] if thorough else []):
+        heavy.append(gen_wide_roll(rng, w))
+    heavy.append(gen_unit_capacity(rng, 257) | {"work": True, "family": "work_knapsack_passes", "timeout": 120})
+    heavy.append(gen_lazy_cg(rng, 140, 129, rows=2))              # cut short at 2^7 + 1 iterations
+    heavy.append({**gen_lazy_cg(rng, rng.randint(450, 600), 5000), "solver": "cg"})   # > 2^8 iterations, converges (each iteration re-solves the
+    #                                                                 master from scratch with K Bland pivots: O(K^3), so 2^10 is thorough only)
+    heavy.append({**gen_lazy_cg(rng, rng.randint(150, 260), 1000), "solver": "bp"})
+    if thorough:
+        heavy.append({**gen_lazy_cg(rng, 1100, None), "solver": "cg", "timeout": 600})   # crosses 2^10 and the default max_iter = 1000
+    heavy.append(gen_bland_chain(rng, 1100, "cg"))                # > 2^10 pivots in one simplex_phase call
+    heavy.append(gen_bland_chain(rng, 2100, "bp"))                # > 2^11
+    heavy.append(gen_bland_chain(rng, 4200, "cg"))                # > 2^12
+    if thorough:
+        heavy.append(gen_bland_chain(rng, 10100, "cg"))           # > 10^4
+    heavy.append(gen_deep_tree(rng, DEEP_TREES[0], 4200))         # > 2^12 nodes explored, stopped by max_nodes
+    heavy.append(gen_deep_tree(rng, DEEP_TREES[2], None))         # ~1000 nodes, tree exhausted
+    heavy.append(gen_deep_tree(rng, DEEP_TREES[3], 2100))
+    if thorough:
+        heavy.append(gen_deep_tree(rng, DEEP_TREES[0], None))     # default max_nodes = 10000 reached
+        heavy.append(gen_deep_tree(rng, DEEP_TREES[1], None))
+    heavy.append(gen_many_pivots(rng, 130))
+    if thorough:
+        heavy.append(gen_many_pivots(rng, 260))
+    for i, c in enumerate(heavy):      # spread over the list: pmap hands out chunks of 8 consecutive cases
+        cases.insert((i * len(cases)) // len(heavy), c)
     return cases
 
 
@@ -375,6 +468,131 @@ def _seq_work(item):
             problems.append(f"call {k} (solve_{solver}) modified its arguments: {before} -> {now}")
             break
     return case, order, problems
+
+
+# ---------------------------------------------------------------------------------- A2: in-place edits between calls (round 3)
+def _edit_work(item):
+    """f(x); mutate the caller's objects IN PLACE (same list objects, same pricing function object with a changed column list behind it);
+    f(x) and the other solver again; every answer must equal that of a fresh call on a deep copy of the current input and obey C17."""
+    from harness.core import use_repo
+
+    use_repo()
+    from harness.props.C17 import TIMEOUT, judge, with_opt, _canon_num, _canon_plan
+    import solvor.bp as bp
+    import solvor.cg as cg
+
+    case, edits = item
+    cur = copy.deepcopy({k: v for k, v in case.items() if k not in ("opt", "init_opt")})
+    demands = list(cur["demands"])
+    if cur["kind"] == "cs":
+        sizes = list(cur["sizes"])
+        live = None
+    else:
+        live = [tuple(c) for c in cur["columns"]]      # the column list behind the ONE pricing function object
+        init = [tuple(c) for c in cur["init"]]
+
+        def pricing(duals, _live=live):
+            best, best_rc = None, None
+            for c in _live:
+                rc = 1.0 - sum(y * a for y, a in zip(duals, c))
+                if best is None or rc < best_rc - 1e-9:
+                    best, best_rc = c, rc
+            return (best, best_rc) if best is not None else (None, 0.0)
+
+    def args_shared():
+        return ({"roll_width": cur["width"], "piece_sizes": sizes} if cur["kind"] == "cs" else {"pricing_fn": pricing, "initial_columns": init})
+
+    def args_fresh():
+        if cur["kind"] == "cs":
+            return {"roll_width": cur["width"], "piece_sizes": list(sizes)}
+        from harness.props.C17 import make_pricing
+        return {"pricing_fn": make_pricing(list(live)), "initial_columns": list(init)}
+
+    def call(solver, dem, args):
+        kw = dict(args, max_iter=cur["max_iter"] if cur["max_iter"] is not None else 30)
+        if solver == "bp":
+            kw["max_nodes"] = 50
+        return guarded(bp.solve_bp if solver == "bp" else cg.solve_cg, dem, timeout=TIMEOUT, **kw)
+
+    def summ(res):
+        if res[0] != "ok":
+            return res[:2]
+        r = res[1]
+        return ("ok", r.status.name, _canon_num(r.objective), json.dumps(_canon_plan(r.solution)))
+
+    problems = []
+    history = []
+    for step, edit in enumerate([None] + edits):
+        if edit is not None:      # ---- the in-place edit
+            kind, i, v = edit
+            m = len(demands)
+            if kind == "demand":
+                demands[i % m] = v
+            elif kind == "size" and cur["kind"] == "cs":
+                sizes[i % m] = max(1, min(cur["width"], v))
+            elif kind == "append_type" and cur["kind"] == "cs" and m < 5:
+                sizes.append(max(1, min(cur["width"], v)))
+                demands.append(1 + v % 3)
+            elif kind == "append_column" and cur["kind"] == "custom":
+                col = tuple((v >> (2 * k)) % 4 for k in range(m))
+                if any(col) and col not in live:
+                    live.append(col)
+            elif kind == "dup_init" and cur["kind"] == "custom":
+                init.insert(i % (len(init) + 1), init[i % len(init)])
+            elif kind == "replace_init" and cur["kind"] == "custom":
+                init[i % len(init)] = live[v % len(live)]
+            else:
+                continue
+            history.append(edit)
+            if not any(demands):
+                demands[0] = 1
+        snap = {"kind": cur["kind"], "demands": list(demands), "max_iter": cur["max_iter"]}
+        if cur["kind"] == "cs":
+            snap.update(sizes=list(sizes), width=cur["width"])
+        else:
+            snap.update(columns=[list(c) for c in live], init=[list(c) for c in init])
+        for solver in (("cg", "bp") if step % 2 == 0 else ("bp", "cg")):
+            got = call(solver, demands, args_shared())
+            ref = call(solver, list(demands), args_fresh())
+            if summ(got) != summ(ref):
+                problems.append(f"after in-place edits {history} solve_{solver} on the edited objects answered {summ(got)}, a fresh call on a copy {summ(ref)}")
+            if got[0] == "ok":
+                c2 = with_opt({**snap, "solver": solver})
+                out = {"status": got[1].status.name, "objective": _canon_num(got[1].objective), "plan": _canon_plan(got[1].solution)}
+                bad = judge(c2, out)
+                if bad:
+                    problems.append(f"after in-place edits {history} solve_{solver}: {bad} (input now {snap})")
+        if problems:
+            break
+    return case, history, problems
+
+
+def gen_edits(rng):
+    out = []
+    for _ in range(rng.choice([1, 2, 2, 3])):
+        out.append((rng.choice(["demand", "demand", "size", "append_type", "append_column", "dup_init", "replace_init"]),
+                    rng.randrange(8), rng.randint(0, 6) if rng.random() < 0.7 else rng.randint(0, 255)))
+    return out
+
+
+# ---------------------------------------------------------------------------------- X: non-finite arguments (observed, outside the quantifier)
+def _nonfinite_probes():
+    from harness.core import use_repo
+
+    use_repo()
+    from solvor import solve_bp, solve_cg
+
+    nan, inf = float("nan"), float("inf")
+    probes = [("demand nan", dict(demands=[nan, 2], roll_width=7, piece_sizes=[3, 2])), ("demand inf", dict(demands=[inf, 1], roll_width=7, piece_sizes=[3, 2])),
+              ("width inf", dict(demands=[2, 2], roll_width=inf, piece_sizes=[3, 2])), ("width nan", dict(demands=[2, 2], roll_width=nan, piece_sizes=[3, 2])),
+              ("size nan", dict(demands=[2, 2], roll_width=7, piece_sizes=[nan, 2])), ("size inf", dict(demands=[2, 2], roll_width=7, piece_sizes=[inf, 2]))]
+    out = []
+    for name, kw in probes:
+        for f in (solve_cg, solve_bp):
+            d = kw["demands"]
+            r = guarded(f, list(d), timeout=5, **{k: v for k, v in kw.items() if k != "demands"})
+            out.append((f"{f.__name__} {name}", r[1].status.name if r[0] == "ok" else (r[0] + " " + str(r[1]) if len(r) > 1 else r[0])))
+    return out
 
 
 # ---------------------------------------------------------------------------------- H: rare internal events of solve_bp
@@ -517,6 +735,23 @@ def run_part(ctx: Ctx):
         if problems:
             ctx.violation(f"solve_cg/solve_bp called in sequence {order} on shared argument objects: {problems[0]}",
                           {"case": _strip_case(case), "sequence": order, "problems": problems})
+
+    # ---- A2: in-place edits between calls
+    items = []
+    for _ in range(60 * (4 if thorough else 1)):
+        base = rng.choice([gen_cs, gen_custom, gen_custom, lambda r: gen_dup_random(r, gen_custom)])(rng)
+        items.append((base, gen_edits(rng)))
+    for case, history, problems in pmap(_edit_work, items):
+        ctx.evaluations += 4 * (1 + len(history))
+        ctx.count("hard_family", "in_place_edits")
+        for e in history:
+            ctx.count("in_place_edit", e[0])
+        if problems:
+            ctx.violation(f"solve_cg/solve_bp after in-place edits of the caller's arguments: {problems[0]}",
+                          {"case": _strip_case(case), "edits": history, "problems": problems})
+    # ---- X: non-finite arguments are outside C17's quantifier (integers): observed only
+    for name, res in _nonfinite_probes():
+        ctx.count("nonfinite_probe", f"{name}: {res}")
 
     # ---- H: event-directed search over solve_bp's internals (hill climb from the seeds towards events not seen yet)
     seeds = [gen_tree_cs(rng) for _ in range(60)] + [gen_dup_dominant(rng) for _ in range(2500 * (3 if thorough else 1))]
